@@ -108,8 +108,11 @@ def _generated(rng, tier, focus):
     start_fixed = n_start >= n_end
     p_h = rng.choice([0.0, 0.0, 0.3, 0.6])
     far = rng.choice([0.0, 1.0, 25.0])
-    start = _mol(rng, "SPC", n_start, tree=not start_fixed, p_h=p_h, origin=gen.rvec(rng, far))
-    end = _mol(rng, "SPC", n_end, tree=start_fixed, p_h=p_h, origin=gen.rvec(rng, far))
+    n_res = 1
+    if min(n_start, n_end) >= 2 and rng.random() < 0.15:
+        n_res = rng.randint(2, min(3, n_start, n_end))       # multi-residue pair (same residue names at each position)
+    start = _mol(rng, "SPC", n_start, tree=not start_fixed, p_h=p_h, origin=gen.rvec(rng, far), n_res=n_res)
+    end = _mol(rng, "SPC", n_end, tree=start_fixed, p_h=p_h, origin=gen.rvec(rng, far), n_res=n_res)
     if rng.random() < 0.3:
         start["velocities"] = [gen.rvec(rng, 1.0) for _ in range(n_start)]
     n_mob = min(n_start, n_end) if n_start != n_end else n_end
@@ -143,13 +146,17 @@ def _generated(rng, tier, focus):
     steps_factor = rng.choice([1, 1, 2, 3, rng.randint(1, sf_hi), rng.randint(1, sf_hi)])
     if rng.random() < 0.03:
         steps_factor = rng.randint(20, 60)
+    auto_guess = None
+    if n_res > 1 and rng.random() < 0.6:
+        restr = None                                   # let the alignment guess them by residue matching (or not)
+        auto_guess = rng.random() < 0.7
     reassign = None
     if rng.random() < 0.25:
         # documented use: once both are set, either may be set again with another configuration of the same molecule
         reassign = {"which": rng.choice(["start", "end", "both"]), "shift": gen.rvec(rng, 3.0),
                     "R": gen.random_rotation(rng).tolist()}
     tr = {"focus": focus, "mode": "align", "reassign": reassign, "start": start, "end": end, "restraints": restr, "deform": deform,
-          "ignore_h": rng.random() < 0.6, "steps_factor": steps_factor,
+          "auto_guess": auto_guess, "ignore_h": rng.random() < 0.6, "steps_factor": steps_factor,
           "sigma_scale": rng.choice([0.5, 0.5, rng.uniform(0.05, 2.0)]),
           "np_seed": rng.randrange(2 ** 32), "script": gen_script(rng)}
     if focus == "C09" and rng.random() < 0.3:
@@ -174,7 +181,8 @@ def gen_script(rng):
 
 def abbreviate(trace):
     return {"focus": trace["focus"], "mode": trace["mode"], "n_start": len(trace["start"]["positions"]),
-            "n_end": len(trace["end"]["positions"]), "restraints": trace["restraints"][:6], "deform": trace["deform"],
+            "n_end": len(trace["end"]["positions"]), "restraints": (trace["restraints"] or [])[:6] if trace["restraints"] is not None else None,
+            "auto_guess": trace.get("auto_guess"), "deform": trace["deform"],
             "ignore_h": trace["ignore_h"], "steps_factor": trace["steps_factor"], "sigma_scale": trace["sigma_scale"],
             "np_seed": trace["np_seed"], "script": trace["script"], "n_steps": trace.get("n_steps")}
 
@@ -192,6 +200,10 @@ def simplify(trace):
             t = dict(trace)
             t["script"] = {"sites": {k: v for k, v in sc["sites"].items() if k != s}, "seed": sc["seed"]}
             yield t
+    if trace["restraints"] is None:
+        t = dict(trace)
+        t["restraints"] = []
+        yield t
     if trace["restraints"]:
         t = dict(trace)
         t["restraints"] = []
@@ -727,7 +739,7 @@ def execute(trace, ctx):
     madj = gen.adjacency(n_mob, [tuple(e) for e in mobile_spec["edges"]])
     hubs = sorted(range(n_mob), key=lambda i: len(madj[i]))
     tree_mobile = len(mobile_spec["edges"]) == n_mob - 1 and gen.is_connected(n_mob, [tuple(e) for e in mobile_spec["edges"]])
-    restr = [tuple(r) for r in trace["restraints"]]
+    restr = None if trace["restraints"] is None else [tuple(r) for r in trace["restraints"]]
     deform = None if trace["deform"] is None else tuple(trace["deform"])
 
     user_start = gen.make_molecule(start_spec)
@@ -838,12 +850,17 @@ def _drive(trace, ali, restr, deform, ctx, B, info, watch):
     import gaddlemaps._alignment as A
     try:
         if trace["mode"] == "align":
-            ali.align_molecules(restrictions=list(restr), deformation_types=deform, ignore_hydrogens=trace["ignore_h"])
+            if restr is None:
+                ali.align_molecules(restrictions=None, deformation_types=deform, ignore_hydrogens=trace["ignore_h"],
+                                    auto_guess_protein_restrictions=bool(trace.get("auto_guess", True)))
+            else:
+                ali.align_molecules(restrictions=list(restr), deformation_types=deform, ignore_hydrogens=trace["ignore_h"])
         else:
             # direct drive of the optimiser entry point with the inputs the alignment would build
             ns, ne = len(ali.start), len(ali.end)
             fixed, mobile = (ali.start, ali.end) if ns >= ne else (ali.end, ali.start)
-            r = [tuple(x) for x in restr] if ns >= ne else [tuple(x[::-1]) for x in restr]
+            rl = restr or []
+            r = [tuple(x) for x in rl] if ns >= ne else [tuple(x[::-1]) for x in rl]
             sim = deform if deform is not None else ((0, 1, 2) if len(mobile) >= 2 else (0,))
             A.minimize_molecules(fixed.atoms_positions, mobile.atoms_positions, mobile.geometric_center,
                                  trace["sigma_scale"], trace["n_steps"], r, mobile.bonds_distance, 0.2, sim)
